@@ -346,6 +346,73 @@ func replay(work string, idx int, pl launchPlan, predicted map[bool]bool) (viol 
 	return "", "", obs
 }
 
+// replaySameProcess overlaps two Launch calls inside one caller process (package-level state
+// of the daemon package is shared between them).
+func replaySameProcess(work string) (viol string, infra string, obs map[string]any) {
+	dirA := filepath.Join(work, fmt.Sprintf("same-A-%d", time.Now().UnixNano()))
+	dirB := filepath.Join(work, fmt.Sprintf("same-B-%d", time.Now().UnixNano()))
+	os.MkdirAll(dirA, 0o755)
+	os.MkdirAll(dirB, 0o755)
+	os.WriteFile(filepath.Join(dirA, "daemon.hold"), nil, 0o644)
+	obs = map[string]any{}
+	cmd := exec.Command(*procBin, "caller2", dirA, dirB)
+	if err := cmd.Start(); err != nil {
+		return "", "cannot start the caller: " + err.Error(), obs
+	}
+	done := make(chan struct{})
+	go func() { cmd.Wait(); close(done) }()
+	var pids []int
+	defer func() {
+		for _, d := range []string{dirA, dirB} {
+			os.WriteFile(filepath.Join(d, "daemon.stop"), nil, 0o644)
+			os.WriteFile(filepath.Join(d, "daemon.release"), nil, 0o644)
+		}
+		for _, p := range pids {
+			syscall.Kill(p, syscall.SIGKILL)
+		}
+		select {
+		case <-done:
+		case <-time.After(5 * time.Second):
+			cmd.Process.Kill()
+		}
+	}()
+	if !waitFile(filepath.Join(dirA, "result2.json")) {
+		return "", "the two overlapping Launch calls did not both return within the step timeout", obs
+	}
+	for _, d := range []string{dirA, dirB} {
+		if ids := readInts(filepath.Join(d, "daemon.started")); len(ids) == 2 {
+			pids = append(pids, ids[0])
+		} else {
+			pids = append(pids, 0)
+		}
+	}
+	var r struct {
+		PidA, PidB int
+		ErrA, ErrB string
+	}
+	if err := json.Unmarshal(must(os.ReadFile(filepath.Join(dirA, "result2.json"))), &r); err != nil {
+		return "", "bad result2.json", obs
+	}
+	<-done
+	obs["first"], obs["second"], obs["daemon_pids"] = fmt.Sprintf("(%d, %s)", r.PidA, r.ErrA), fmt.Sprintf("(%d, %s)", r.PidB, r.ErrB), fmt.Sprint(pids)
+	for i, x := range []struct {
+		pid int
+		err string
+	}{{r.PidA, r.ErrA}, {r.PidB, r.ErrB}} {
+		which := []string{"first (its daemon was held before Done() while the other Launch ran)", "second"}[i]
+		doneCalled := fileExists(filepath.Join([]string{dirA, dirB}[i], "daemon.done-calling"))
+		switch {
+		case x.err != "<nil>" && doneCalled && alive(pids[i]):
+			return fmt.Sprintf("two overlapping Launch calls in one process: the %s daemon called Done() and keeps running (pid %d), but its Launch returned (%d, %q)", which, pids[i], x.pid, x.err), "", obs
+		case x.err == "<nil>" && x.pid != pids[i]:
+			return fmt.Sprintf("two overlapping Launch calls in one process: the %s Launch returned pid %d, its daemon has pid %d", which, x.pid, pids[i]), "", obs
+		case x.err == "<nil>" && !alive(pids[i]):
+			return fmt.Sprintf("two overlapping Launch calls in one process: the %s daemon is not running after Launch returned", which), "", obs
+		}
+	}
+	return "", "", obs
+}
+
 func fileExists(p string) bool { _, err := os.Stat(p); return err == nil }
 
 func must(b []byte, err error) []byte { return b }
@@ -508,6 +575,17 @@ func main() {
 			wg.Wait()
 		}
 	}
+	for rep := 0; rep < reps; rep++ {
+		v, infra, obs := replaySameProcess(work)
+		replays += 2
+		if infra != "" {
+			vcommon.Infra("two Launch calls in one process: %s (%v)", infra, obs)
+		}
+		if v != "" {
+			viols = append(viols, vcommon.Violation{Scenario: "2 launches overlapping in one process", Fingerprint: "same-process|" + firstWords(v, 12),
+				Message: "C20: " + v + fmt.Sprintf(" [observed %v]", obs), Witness: map[string]any{"observed": obs}})
+		}
+	}
 	for _, m := range models {
 		if m.Errors > 0 && len(viols) == 0 {
 			// the model says the code's ordering is wrong but the real processes did not show it: report the model finding
@@ -515,6 +593,7 @@ func main() {
 		}
 	}
 	fmt.Printf("%d schedule classes replayed on real processes\n", replays)
+	os.RemoveAll(work) // os.Exit below skips deferred calls
 	code, n := vcommon.Report("C20", viols)
 	vcommon.WriteEvidence(&vcommon.Evidence{PropertyID: "C20", Level: "model_checking", Violations: n,
 		Coverage: map[string]any{
